@@ -51,7 +51,7 @@ CLAIMS.update({
         text="n <= 3 rows, each symbolically one of 10 classes (valid, 7 malformed kinds, rule-solvable, duplicate), symbolic batch size, list/dict/Dataset input: exactly the expected rows come back in order, each describing its input. Batching kernel (DataLoader) with symbolic n <= 6 and batch size separately. Outside the two known regions the full property is required; inside, exactly the specified deviation."),
     "C15": dict(engine="smt", technique="z3 regular-expression inclusion and linear-integer queries generated from the regex literals in the current source; cvc5 cross-check on thorough; sat models replayed on the real function and RDKit", ref="3/C15",
         note="Python re semantics reduced to: matches start at the literal first character, longest match for the checked pattern shape; OpenSMILES bracket-atom grammar with RDKit's element table; valence lists from RDKit.",
-        text="For every bracket atom of the OpenSMILES grammar (unbounded field lengths, whole periodic table) the first substitution deletes exactly the class field and nothing else, the second unbrackets only plain organic-subset atoms and puts back exactly the symbol, and (integer query) a closed-shell atom keeps its hydrogen count unless it lies in the recorded known region (hypervalent hydrides); outside brackets the first regex never fires except in the recorded aromatic-bond region. Appended compounds are scanned for class fields."),
+        text="For every bracket atom of the OpenSMILES grammar (unbounded field lengths, whole periodic table) the first substitution deletes exactly the class field and nothing else, the second unbrackets only plain organic-subset atoms and puts back exactly the symbol, and (integer query) a closed-shell atom keeps its hydrogen count unless it lies in the recorded known region (hypervalent hydrides); outside brackets the first regex never fires (the aromatic-bond defect found here was repaired in /repo; no region is excluded for it any more). Appended compounds are scanned for class fields."),
     "C17": dict(engine="xh+smt", technique="z3 query on the extracted sort-key lambda with uninterpreted components (injectivity); bounded symbolic execution of normalize_smiles / wc_similarity with canonicalisation and fingerprints stubbed (CrossHair + z3)", ref="3/C17",
         note="RDKit canonicalisation idempotent and spelling-independent, Tanimoto/Dice symmetric into [0,1] (stub contracts); token pool of 7 with anagram pairs.",
         text="unsat of 'exists x != y with equal key' shows for all strings that the sort in normalize_smiles is a total order on distinct tokens, hence permutation-invariant; the real functions are then run on solver-chosen token selections and permutations: equal outputs, idempotence, similarity 1 for order variants, symmetry and range."),
